@@ -279,7 +279,14 @@ func cmdCheck(args []string) {
 				fmt.Printf("KNOWN-FINDING: property=%s %s %s\n", id, ob, k.What)
 				knownPrinted = append(knownPrinted, ob)
 			} else {
-				printViolation(ob, rec, false)
+				concrete := false
+				if cfg.Replay != "" {
+					out, ok := runReplay(*verif, cfg.Replay, id, &Obligation{Name: ob, Func: r.Func, Kind: "verifiable"}, *repo)
+					rec["replay_output"] = truncate(out, 4000)
+					rec["replayed_on_real_code"] = ok
+					concrete = ok
+				}
+				printViolation(ob, rec, concrete)
 			}
 			total++
 			unproved++
